@@ -97,6 +97,10 @@ pub fn work(seed: u64, n_items: usize) -> Vec<(String, String)> {
                         }
                     }
                 }
+                // every third network has NO set for the train's own type on its links: the only deterministic answer is the
+                // error (a fall-back to "some" set of the map would depend on the map's iteration order)
+                let orphan = k % 3 == 2;
+                if orphan { for l in net.0.iter_mut().skip(1) { l.speed_sets.remove(&tt); } }
                 let mut tc = train_config(&mut rr, false); tc.train_type = tt;
                 let res = catch(AssertUnwindSafe(|| -> anyhow::Result<PathTpc> {
                     let tp = tc.make_train_params()?;
@@ -104,8 +108,9 @@ pub fn work(seed: u64, n_items: usize) -> Vec<(String, String)> {
                     let path: Vec<LinkIdx> = (1..=m).map(|i| LinkIdx::new(i as u32)).collect();
                     p.extend(&net, &path)?; p.finish(); Ok(p)
                 }));
-                let d = match &res { Ok(Ok(p)) => dig("ok", p), Ok(Err(e)) => format!("err:{}", format!("{:#}", e).lines().next().unwrap_or("")), Err(p) => format!("panic:{}", p) };
-                out.push((format!("path_tpc_multi_speed_sets/{}", k), format!("{}|net:{}", d, digest(&to_node(&net)))));
+                // the error text lists the map's keys in iteration order: cut it there
+                let d = match &res { Ok(Ok(p)) => dig("ok", p), Ok(Err(e)) => format!("err:{}", format!("{:#}", e).lines().next().unwrap_or("").split("speed_sets.keys()").next().unwrap_or("")), Err(p) => format!("panic:{}", p) };
+                out.push((format!("path_tpc_multi_speed_sets{}/{}", if orphan { "_own_type_missing" } else { "" }, k), format!("{}|net:{}", d, digest(&to_node(&net)))));
             }
             4 => {
                 let m = 1 + rr.below(3);
